@@ -310,7 +310,7 @@ func init() {
 	registerCheck(&CheckDef{Prop: "C12", Level: "model_checking", Technique: "crash-point enumeration on top of the explicit-state search: every explored state of the real core is a crash point; the shim's knowledge is replayed into a new real core in bounded-many orders and the ledgers of the two cores are compared",
 		Quick: []Run{{Scenario: "recover-cap-basic-fair", Depth: 4, MapModes: []int{1}, ExtraDepth: 4}, {Scenario: "recover-gang-Soft", Depth: 4, MapModes: []int{1}, ExtraDepth: 4},
 			{Scenario: "recover-qmax-dynamic", Depth: 4, MapModes: []int{1}, ExtraDepth: 4}, {Scenario: "recover-ugm-sched-2", Depth: 4, MapModes: []int{1}, ExtraDepth: 4}, {Scenario: "recover-maxapps", Depth: 4, MapModes: []int{1}, ExtraDepth: 4}},
-		Thorough: []Run{{Scenario: "recover-cap-basic-fair", Depth: 7, MapModes: []int{1}, ExtraDepth: 7}, {Scenario: "recover-gang-Soft", Depth: 7, MapModes: []int{1}, ExtraDepth: 7},
+		Thorough: []Run{{Scenario: "recover-cap-basic-fair", Depth: 8, MapModes: []int{1}, ExtraDepth: 8}, {Scenario: "recover-gang-Soft", Depth: 8, MapModes: []int{1}, ExtraDepth: 8},
 			{Scenario: "recover-qmax-dynamic", Depth: 6, MapModes: []int{1}, ExtraDepth: 6}, {Scenario: "recover-ugm-sched-2", Depth: 6, MapModes: []int{1}, ExtraDepth: 6}, {Scenario: "recover-maxapps", Depth: 6, MapModes: []int{1}, ExtraDepth: 6}},
 		QuickBudget: 150 * time.Second, ThoroughBudget: 12 * time.Minute,
 		Assumptions: []string{"crash points are the quiescent points between operations (all outbound messages of the last operation delivered); points with a release awaiting confirmation or a placeholder swap in flight are counted and skipped, because the statement compares totals the shim can know",
